@@ -29,7 +29,14 @@ func (g *GenericPlanner) WrapProcess(ctx *shared.PlannerContext,
 			}()
 		}
 		defer close(out)
-		defer func() { shared.TamePanic(out) }()
+		defer func() {
+			// whatever ends this stage early, never leave the upstream blocked on its send
+			go func() {
+				for range _in {
+				}
+			}()
+		}()
+		defer shared.TamePanic(out)
 		for entries := range _in {
 			for i := range entries {
 				err := ops.OnEntry(&entries[i])
